@@ -95,7 +95,8 @@ Qed.
 (* every unit runs the filter of the script named by the load that started it *)
 Definition filters_ok (st : estate) : Prop :=
   es_scripts st !! ru_born (es_rib st) = Some (ru_filter (es_rib st)) /\
-  forall r, es_rib2 st = Some r -> es_scripts st !! ru_born r = Some (ru_filter r).
+  (forall r, es_rib2 st = Some r -> es_scripts st !! ru_born r = Some (ru_filter r)) /\
+  Forall (fun v => es_scripts st !! vr_born v = Some (vr_filter v)) (es_vribs st).
 
 Lemma runit_see_filter r out : ru_filter (runit_see r out) = ru_filter r.
 Proof. unfold runit_see. destruct (upd_of out); reflexivity. Qed.
@@ -104,20 +105,28 @@ Proof. unfold runit_see. destruct (upd_of out); reflexivity. Qed.
 
 Lemma e_step_filters_ok st o : filters_ok st -> filters_ok (e_step false st o).
 Proof.
-  intros [H1 H2]. destruct o as [wo|s|y|]; cbn [e_step].
-  - destruct (wstep (es_w st) wo) as [w' out]. split; cbn [es_scripts es_rib es_rib2].
+  intros (H1 & H2 & H3). destruct o as [wo|s|y|nv|]; cbn [e_step].
+  - destruct (wstep (es_w st) wo) as [w' out]. split; [|split]; cbn [es_scripts es_rib es_rib2 es_vribs].
     + rewrite runit_see_filter, runit_see_born. exact H1.
     + intros r Hr. destruct (es_rib2 st) as [r0|]; [|discriminate]. cbn [option_map] in Hr.
       injection Hr as <-. rewrite runit_see_filter, runit_see_born. apply H2. reflexivity.
-  - split; [exact H1|exact H2].
-  - split; [exact H1|exact H2].
-  - split; cbn [es_scripts es_rib es_rib2].
+    + exact H3.
+  - split; [exact H1|split; [exact H2|exact H3]].
+  - split; [exact H1|split; [exact H2|exact H3]].
+  - split; [exact H1|split; [exact H2|exact H3]].
+  - split; [|split]; cbn [es_scripts es_rib es_rib2 es_vribs].
     + apply lookup_app_l_Some. exact H1.
     + intros r Hr.
       destruct ((es_rib2kind st =? 1)%N && (ef_rib2 (es_file st) =? 1)%N).
       * apply lookup_app_l_Some. apply H2. exact Hr.
       * destruct (ef_rib2 (es_file st) =? 1)%N; [|discriminate].
         injection Hr as <-. cbn [ru_born ru_filter].
+        rewrite lookup_app_r by lia. rewrite Nat.sub_diag. reflexivity.
+    + apply Forall_app. split.
+      * apply Forall_fmap. apply Forall_take.
+        eapply Forall_impl; [exact H3|]. intros v Hv. cbn [vr_born vr_filter compose].
+        apply lookup_app_l_Some. exact Hv.
+      * apply Forall_replicate. cbn [vr_born vr_filter].
         rewrite lookup_app_r by lia. rewrite Nat.sub_diag. reflexivity.
 Qed.
 
@@ -127,8 +136,11 @@ Proof.
   apply IH, e_step_filters_ok, H.
 Qed.
 
-Lemma e_init_filters_ok s0 : filters_ok (e_init s0).
-Proof. split; [reflexivity|]. intros r Hr. discriminate. Qed.
+Lemma e_init_filters_ok s0 n0 : filters_ok (e_init_v s0 n0).
+Proof.
+  split; [reflexivity|]. split; [intros r Hr; discriminate|].
+  cbn [e_init_v es_vribs es_scripts]. apply Forall_replicate. reflexivity.
+Qed.
 
 (* the bookkeeping list is the history of the scripts the loads named *)
 Lemma e_run_scripts lg h : forall st,
@@ -136,8 +148,9 @@ Lemma e_run_scripts lg h : forall st,
 Proof.
   induction h as [|o h IH]; intros st; cbn [e_run fold_left scripts_named].
   - rewrite app_nil_r. reflexivity.
-  - fold (e_run lg (e_step lg st o) h). rewrite IH. destruct o as [wo|s|y|]; cbn [e_step].
+  - fold (e_run lg (e_step lg st o) h). rewrite IH. destruct o as [wo|s|y|nv|]; cbn [e_step].
     + destruct (wstep (es_w st) wo) as [w' out]. reflexivity.
+    + reflexivity.
     + reflexivity.
     + reflexivity.
     + cbn [es_scripts es_file]. rewrite <- app_assoc. reflexivity.
@@ -149,8 +162,8 @@ Theorem unit_filter_is_script_of_its_load s0 h :
   named !! ru_born (es_rib st) = Some (ru_filter (es_rib st)) /\
   forall r, es_rib2 st = Some r -> named !! ru_born r = Some (ru_filter r).
 Proof.
-  cbn zeta. pose proof (e_run_filters_ok h (e_init s0) (e_init_filters_ok s0)) as H.
-  unfold filters_ok in H. rewrite e_run_scripts in H. exact H.
+  cbn zeta. pose proof (e_run_filters_ok h (e_init s0) (e_init_filters_ok s0 0)) as H.
+  unfold filters_ok in H. rewrite e_run_scripts in H. destruct H as (H1 & H2 & _). split; [exact H1|exact H2].
 Qed.
 
 (* a unit started by a reload starts empty, with the script that reload named *)
@@ -173,7 +186,7 @@ Qed.
 
 Lemma e_step_rib_filter lg st o : ru_filter (es_rib (e_step lg st o)) = ru_filter (es_rib st).
 Proof.
-  destruct o as [wo|s|y|]; cbn [e_step]; try reflexivity.
+  destruct o as [wo|s|y|nv|]; cbn [e_step]; try reflexivity.
   destruct (wstep (es_w st) wo) as [w' out]. cbn [es_rib]. apply runit_see_filter.
 Qed.
 
@@ -199,7 +212,7 @@ Lemma e_step_rib_is_pipe lg st o :
   unfiltered (ru_filter (es_rib st)) -> ru_rib (es_rib st) = w_rib (es_w st) ->
   ru_rib (es_rib (e_step lg st o)) = w_rib (es_w (e_step lg st o)).
 Proof.
-  intros Hf Hr. destruct o as [wo|s|y|]; cbn [e_step]; try exact Hr.
+  intros Hf Hr. destruct o as [wo|s|y|nv|]; cbn [e_step]; try exact Hr.
   pose proof (wstep_rib (es_w st) wo) as Hw.
   destruct (wstep (es_w st) wo) as [w' out]. cbn [fst snd] in Hw. cbn [es_rib es_w].
   rewrite Hw. unfold runit_see. destruct (upd_of out) as [u|]; [|exact Hr].
@@ -229,7 +242,7 @@ Lemma e_run_world lg h : forall st,
 Proof.
   induction h as [|o h IH]; intros st; [reflexivity|]. cbn [e_run fold_left].
   fold (e_run lg (e_step lg st o) h). rewrite IH.
-  destruct o as [wo|s|y|]; cbn [traffic fold_left]; try reflexivity.
+  destruct o as [wo|s|y|nv|]; cbn [traffic fold_left]; try reflexivity.
   rewrite e_step_w. reflexivity.
 Qed.
 
@@ -284,7 +297,7 @@ Definition all_clean (st : estate) : Prop := clean (es_rib st) /\ forall r, es_r
 
 Lemma e_step_all_clean lg st o : all_clean st -> all_clean (e_step lg st o).
 Proof.
-  intros [H1 H2]. destruct o as [wo|s|y|]; cbn [e_step]; try (split; [exact H1|exact H2]).
+  intros [H1 H2]. destruct o as [wo|s|y|nv|]; cbn [e_step]; try (split; [exact H1|exact H2]).
   - destruct (wstep (es_w st) wo) as [w' out]. split; cbn [es_rib es_rib2].
     + apply runit_see_clean, H1.
     + intros r Hr. destruct (es_rib2 st) as [r0|]; [|discriminate]. cbn [option_map] in Hr.
@@ -348,3 +361,195 @@ Theorem legacy_script_removed_refuted_std :
   List.last (es_scripts st) SNoRibFilter = SNone /\
   option_map ru_filter (es_rib2 (e_run false (e_init (SRejectPfx 7)) h)) = Some SNone.
 Proof. vm_compute. repeat split; reflexivity. Qed.
+
+(* the same for the generated vRIBs of a shorthand RIB, whatever their number at start-up and after each reload *)
+Theorem vrib_filter_is_script_of_its_load s0 n0 h :
+  let st := e_run false (e_init_v s0 n0) h in
+  let named := s0 :: scripts_named s0 h in
+  forall v, In v (es_vribs st) -> nth_error named (vr_born v) = Some (vr_filter v).
+Proof.
+  cbn zeta. pose proof (e_run_filters_ok h (e_init_v s0 n0) (e_init_filters_ok s0 n0)) as H.
+  unfold filters_ok in H. rewrite e_run_scripts in H. destruct H as (_ & _ & H3).
+  intros v Hv. rewrite List.Forall_forall in H3. specialize (H3 v Hv).
+  rewrite <- lookup_nth_error. exact H3.
+Qed.
+
+
+(* ------------------------------------------------------------------ *)
+(* Generated vRIBs: the links of a running vRIB are the ones the LATEST load made *)
+
+Definition vribs_current (st : estate) : Prop :=
+  Forall (fun v => vr_up v = es_cur st /\ vr_src v = es_cur st) (es_vribs st).
+
+Lemma e_step_vribs_current lg st o : vribs_current st -> vribs_current (e_step lg st o).
+Proof.
+  unfold vribs_current, es_cur. intros H. destruct o as [wo|s|y|nv|]; cbn [e_step]; try exact H.
+  - destruct (wstep (es_w st) wo) as [w' out]. exact H.
+  - cbn [es_vribs es_scripts]. rewrite app_length. cbn [length]. rewrite Nat.add_1_r. cbn [pred].
+    apply Forall_app. split.
+    + apply Forall_fmap. apply Forall_take. eapply Forall_impl; [exact H|].
+      intros v _. cbn [compose vr_up vr_src]. split; reflexivity.
+    + apply Forall_replicate. split; reflexivity.
+Qed.
+
+Lemma e_run_vribs_current lg h : forall st, vribs_current st -> vribs_current (e_run lg st h).
+Proof.
+  induction h as [|o h IH]; intros st H; [exact H|]. cbn [e_run fold_left].
+  apply IH, e_step_vribs_current, H.
+Qed.
+
+Lemma e_init_vribs_current s0 n0 : vribs_current (e_init_v s0 n0).
+Proof. unfold vribs_current. cbn [e_init_v es_vribs]. apply Forall_replicate. split; reflexivity. Qed.
+
+(* after every history of traffic, edits and reloads: the vrib_upstream link and the sources link of every running
+   generated vRIB are those of the last load - the load whose gates the running units hold *)
+Theorem vribs_linked_to_current lg s0 n0 h :
+  let st := e_run lg (e_init_v s0 n0) h in
+  forall v, In v (es_vribs st) -> vr_up v = es_cur st /\ vr_src v = es_cur st.
+Proof.
+  cbn zeta. pose proof (e_run_vribs_current lg h _ (e_init_vribs_current s0 n0)) as H.
+  unfold vribs_current in H. rewrite List.Forall_forall in H. exact H.
+Qed.
+
+Lemma vribs_current_chain_linked st i :
+  vribs_current st -> (i < length (es_vribs st))%nat -> chain_linked (es_cur st) (es_vribs st) i = true.
+Proof.
+  unfold vribs_current, chain_linked. intros H Hi.
+  destruct (lookup_lt_is_Some_2 _ _ Hi) as [v Hv]. rewrite Hv.
+  apply andb_true_intro. split.
+  - rewrite Forall_forall in H. destruct (H v (elem_of_list_lookup_2 _ _ _ Hv)) as [Hu _].
+    rewrite Hu. apply Nat.eqb_refl.
+  - apply forallb_forall. intros x Hx.
+    assert (Hin : x ∈ es_vribs st).
+    { apply elem_of_list_In in Hx. apply elem_of_take in Hx. destruct Hx as (j & Hj & _).
+      apply (elem_of_list_lookup_2 _ j). exact Hj. }
+    rewrite Forall_forall in H. destruct (H x Hin) as [_ Hs]. rewrite Hs. apply Nat.eqb_refl.
+Qed.
+
+(* so a query of a running vRIB always reaches the physical RIB and its result comes back down the chain *)
+Theorem vrib_chain_always_linked lg s0 n0 h i :
+  let st := e_run lg (e_init_v s0 n0) h in
+  (i < length (es_vribs st))%nat -> chain_linked (es_cur st) (es_vribs st) i = true.
+Proof.
+  cbn zeta. apply vribs_current_chain_linked. apply e_run_vribs_current, e_init_vribs_current.
+Qed.
+
+(* whenever the code answers, it answers what the property asks for (any state) *)
+Theorem vrib_code_answer_is_spec st i af pfx l :
+  vrib_query_code st i af pfx = VAnswer l -> vrib_query_spec st i af pfx = VAnswer l.
+Proof.
+  unfold vrib_query_code, vrib_query_spec. destruct (i <? length (es_vribs st))%nat; [|discriminate].
+  destruct (chain_linked _ _ _); [|discriminate].
+  destruct (rib_query (ru_rib (es_rib st)) af pfx) as [|e t]; [|discriminate].
+  intros Hl. injection Hl as <-. destruct (chain_rejects _ _ _); reflexivity.
+Qed.
+
+(* a path with no vRIB behind it is not answered by one, in the code as in the spec *)
+Theorem vrib_absent_agree st i af pfx :
+  vrib_query_code st i af pfx = VAbsent <-> vrib_query_spec st i af pfx = VAbsent.
+Proof.
+  unfold vrib_query_code, vrib_query_spec. destruct (i <? length (es_vribs st))%nat.
+  - split; [|discriminate]. destruct (chain_linked _ _ _); [|discriminate].
+    destruct (rib_query _ _ _); discriminate.
+  - split; reflexivity.
+Qed.
+
+(* the partial theorem: after every history, a query of a vRIB about a prefix the physical RIB holds nothing for
+   (or a path without a vRIB) is answered as the property asks - in particular it IS answered, after any number of reloads *)
+Theorem vrib_query_partial lg s0 n0 h i af pfx :
+  let st := e_run lg (e_init_v s0 n0) h in
+  rib_query (ru_rib (es_rib st)) af pfx = [] ->
+  vrib_query_code st i af pfx = vrib_query_spec st i af pfx.
+Proof.
+  cbn zeta. intros Hq. unfold vrib_query_code, vrib_query_spec.
+  destruct (i <? length (es_vribs (e_run lg (e_init_v s0 n0) h)))%nat eqn:Hi; [|reflexivity].
+  apply Nat.ltb_lt in Hi. rewrite (vrib_chain_always_linked lg s0 n0 h i Hi). rewrite Hq.
+  destruct (chain_rejects _ _ _); reflexivity.
+Qed.
+
+(* ... and the code's departure: the physical RIB holds a route of the prefix - the property asks for it, the
+   request is never answered (reprocess_rib_value is `todo!()`) *)
+Definition vrib_witness : list eop :=
+  [EW (WConnect 0); EW (WMsg 0 MInit); EW (WMsg 0 (MPeerUp (0, 0, 0, 0, 1, 65001, 1)%N false));
+   EW (WMsg 0 (MRoute (0, 0, 0, 0, 1, 65001, 1)%N (Some (URoutes 0 [1%N] 3 0 []))))].
+
+Theorem vrib_query_refuted :
+  let st := e_run false (e_init_v SNone 1) vrib_witness in
+  vrib_query_code st 0 0 1 = VNever /\
+  (exists e, vrib_query_spec st 0 0 1 = VAnswer [e]) /\
+  vrib_query_code st 0 0 2 = VAnswer [] /\ vrib_query_spec st 0 0 2 = VAnswer [].
+Proof. vm_compute. split; [reflexivity|]. split; [eexists; reflexivity|]. split; reflexivity. Qed.
+
+(* without filters in the chain a vRIB says what the physical RIB says *)
+Theorem vrib_unfiltered_answers_as_prib st i af pfx :
+  (i < length (es_vribs st))%nat -> (forall v, In v (es_vribs st) -> unfiltered (vr_filter v)) ->
+  vrib_query_spec st i af pfx = VAnswer (rib_query (ru_rib (es_rib st)) af pfx).
+Proof.
+  intros Hi Hf. unfold vrib_query_spec. apply Nat.ltb_lt in Hi. rewrite Hi.
+  assert (Hr : chain_rejects (es_vribs st) i pfx = false).
+  { unfold chain_rejects. apply not_true_is_false. intros Hex. apply existsb_exists in Hex.
+    destruct Hex as (v & Hv & Hrej). apply elem_of_list_In, elem_of_take in Hv. destruct Hv as (j & Hj & _).
+    assert (Hin : In v (es_vribs st)) by (apply elem_of_list_In, (elem_of_list_lookup_2 _ j), Hj).
+    destruct (Hf v Hin) as [E|E]; rewrite E in Hrej; discriminate. }
+  rewrite Hr. reflexivity.
+Qed.
+
+(* ---- what a reload does to the generated vRIBs ---- *)
+
+(* as many as the file asks for *)
+Theorem reload_vrib_count lg st :
+  length (es_vribs (e_step lg st EReload)) = N.to_nat (ef_vribs (es_file st)).
+Proof.
+  cbn [e_step es_vribs]. rewrite app_length, fmap_length, take_length, replicate_length. lia.
+Qed.
+
+(* a vRIB the file still asks for is spared: it keeps filter and birth, and holds the links this load made *)
+Theorem reload_spares_vribs lg st i v :
+  es_vribs st !! i = Some v -> (i < N.to_nat (ef_vribs (es_file st)))%nat ->
+  es_vribs (e_step lg st EReload) !! i =
+  Some (MkVrib (vr_filter v) (vr_born v) (length (es_scripts st)) (length (es_scripts st))).
+Proof.
+  intros Hv Hi. cbn [e_step es_vribs].
+  rewrite lookup_app_l.
+  - rewrite list_lookup_fmap, lookup_take by exact Hi. rewrite Hv. reflexivity.
+  - rewrite fmap_length, take_length. apply lookup_lt_Some in Hv. lia.
+Qed.
+
+(* a vRIB the file adds is started with the script the reloaded configuration names, linked to this load's gates *)
+Theorem reload_starts_vribs st i :
+  (length (es_vribs st) <= i)%nat -> (i < N.to_nat (ef_vribs (es_file st)))%nat ->
+  es_vribs (e_step false st EReload) !! i =
+  Some (MkVrib (ef_script (es_file st)) (length (es_scripts st)) (length (es_scripts st)) (length (es_scripts st))).
+Proof.
+  intros Hlo Hi. cbn [e_step es_vribs].
+  rewrite lookup_app_r; rewrite fmap_length, take_length; [|lia].
+  apply lookup_replicate_2. lia.
+Qed.
+
+(* the other operations leave the vRIBs alone *)
+Theorem only_reload_touches_vribs lg st o : o <> EReload -> es_vribs (e_step lg st o) = es_vribs st.
+Proof.
+  intros Ho. destruct o as [wo|s|y|nv|]; cbn [e_step]; try reflexivity; [|contradiction].
+  destruct (wstep (es_w st) wo) as [w' out]. reflexivity.
+Qed.
+
+(* non-vacuity: start-up with two vRIBs and a script rejecting prefix 7; the operator edits the script and asks for three
+   vRIBs; after the reload vRIB 0 and 1 keep the old filter, vRIB 2 has the new one, all are linked to load 1 *)
+Lemma vrib_example :
+  let st := e_run false (e_init_v (SRejectPfx 7) 2) [EScript (SRejectPfx 8); EVribs 3; EReload] in
+  es_vribs st = [MkVrib (SRejectPfx 7) 0 1 1; MkVrib (SRejectPfx 7) 0 1 1; MkVrib (SRejectPfx 8) 1 1 1] /\ es_cur st = 1%nat /\
+  vrib_query_code st 2 0 8 = VAnswer [] /\ vrib_query_code st 3 0 8 = VAbsent.
+Proof. vm_compute. repeat split; reflexivity. Qed.
+
+(* the same with the standard library's list access *)
+Theorem reload_spares_vribs_nth lg st i v :
+  nth_error (es_vribs st) i = Some v -> (i < N.to_nat (ef_vribs (es_file st)))%nat ->
+  nth_error (es_vribs (e_step lg st EReload)) i =
+  Some (MkVrib (vr_filter v) (vr_born v) (length (es_scripts st)) (length (es_scripts st))).
+Proof. rewrite <- !lookup_nth_error. apply reload_spares_vribs. Qed.
+
+Theorem reload_starts_vribs_nth st i :
+  (length (es_vribs st) <= i)%nat -> (i < N.to_nat (ef_vribs (es_file st)))%nat ->
+  nth_error (es_vribs (e_step false st EReload)) i =
+  Some (MkVrib (ef_script (es_file st)) (length (es_scripts st)) (length (es_scripts st)) (length (es_scripts st))).
+Proof. rewrite <- lookup_nth_error. apply reload_starts_vribs. Qed.
